@@ -543,11 +543,25 @@ func cmdCheck(args []string) int {
 	newLock := map[string]lockEntry{}
 	callCovers := map[string]string{}
 	var unreachableReturns []string
+	leakSites := 0
 	for _, ur := range res.units {
 		for _, o := range ur.obls {
 			seen[o.Name] = true
 			if o.Kind == "cover" && o.OptionalCover {
 				callCovers[o.Name] = o.Status
+				continue
+			}
+			if o.Kind == "leak" {
+				// a MUST question of the leak sweep: "discharged" means the slice handed to a formatting call is key material
+				// on every path that reaches the call - a violation if the call is reachable at all; anything else is silence
+				leakSites++
+				if o.Status == "discharged" && callCovers[o.Name+"@reach"] == "discharged" {
+					smt, _ := os.ReadFile(o.SmtFile)
+					path, rep := writeReplay(prop, o, "plaintext key material is handed to a formatting call (log line / error text): the contracts prove the slice is key material on every path reaching the call", string(smt))
+					violations = append(violations, violationLine(prop, path, rep))
+					fmt.Printf("FAILED %s  key material reaches a formatting call  at %s\n   %s\n", o.Name, o.Pos, o.Text)
+					total++
+				}
 				continue
 			}
 			if o.Kind == "cover" {
@@ -724,6 +738,7 @@ func cmdCheck(args []string) int {
 			"outside_reach":             res.outside,
 			"known_findings":            knownHit,
 			"undecided_new_safety":      undecided,
+			"format_sinks_examined":     leakSites,
 			"bounded":                   []string{},
 			"solver_timeout_s":          to,
 			"also_runs_checks":          depsOf(prop),
